@@ -232,3 +232,50 @@ Proof.
   assert (HH' : mp4_forest_height atoms' <= MP4_MAXDEPTH) by (unfold MP4_MAXDEPTH in *; lia).
   exists atoms'. split; [apply parse_complete; assumption|]. split; assumption.
 Qed.
+
+(* ------------------------------------------------------------------ two readings of the offsets theorem spelled out *)
+(* (1) the tfhd base offset is shifted whenever bit 0 (base-data-offset-present) of tf_flags is set, whatever the other flag
+   bits (0x020000 default-base-is-moof, 0x010000 duration-is-empty, 0x02/0x08/0x10/0x20 optional fields) are *)
+Lemma tfhd_flag_bit0 g ao : tfhd_flag g ao = Z.testbit (be_decode (mp4_rd g (ao + 9) 3)) 0.
+Proof. unfold tfhd_flag. symmetry. apply Z.bit0_odd. Qed.
+
+Theorem c10_tfhd_any_flags f ilst_data cb f' atoms path :
+  mp4_wf f = true -> mp4_atoms f = Ok atoms -> mp4_path atoms ILST_PATH = Some path -> mp4_tags_clean atoms = true ->
+  mp4_save f ilst_data cb = Ok f' ->
+  exists off old, mp4_region_of path = Some (off, old) /\
+    let delta := zlen f' - zlen f in
+    forall T flags, In T (mp4_tfhd_list atoms) ->
+      be_decode (mp4_rd f (ma_off T + 9) 3) = flags -> Z.testbit flags 0 = true ->
+      tfhd_base f' (mp4_newpos off old delta (ma_off T)) = mp4_shift off delta (tfhd_base f (ma_off T)).
+Proof.
+  intros Hwf Ha Hp Hc Hs.
+  destruct (c10_offsets_follow_data f ilst_data cb f' atoms path Hwf Ha Hp Hc Hs) as (off & old & Hr & _ & _ & _ & HH).
+  exists off, old. split; [exact Hr|]. cbv zeta in *. destruct HH as (_ & _ & HT & _).
+  intros T flags HTin Hfl Hb. apply HT; [exact HTin|]. rewrite tfhd_flag_bit0, Hfl. exact Hb.
+Qed.
+
+(* (2) the entries of a table are shifted one by one: entry i moves iff entry i itself lies behind the region start,
+   independently of the first (or any other) entry of the table *)
+Lemma znth_map_in (g : Z -> Z) l i : 0 <= i < zlen l -> znth i (map g l) = g (znth i l).
+Proof.
+  unfold znth, zlen. intros Hi. rewrite (nth_indep (map g l) 0 (g 0)) by (rewrite map_length; lia). apply map_nth.
+Qed.
+
+Theorem c10_entries_individually f ilst_data cb f' atoms path :
+  mp4_wf f = true -> mp4_atoms f = Ok atoms -> mp4_path atoms ILST_PATH = Some path -> mp4_tags_clean atoms = true ->
+  mp4_save f ilst_data cb = Ok f' ->
+  exists off old, mp4_region_of path = Some (off, old) /\
+    let delta := zlen f' - zlen f in
+    let np := mp4_newpos off old delta in
+    (forall T i, In T (mp4_stco_list atoms) -> 0 <= i < zlen (tab_entries 4 f (ma_off T)) ->
+       zlen (tab_entries 4 f' (np (ma_off T))) = zlen (tab_entries 4 f (ma_off T)) /\
+       znth i (tab_entries 4 f' (np (ma_off T))) = mp4_shift off delta (znth i (tab_entries 4 f (ma_off T)))) /\
+    (forall T i, In T (mp4_co64_list atoms) -> 0 <= i < zlen (tab_entries 8 f (ma_off T)) ->
+       zlen (tab_entries 8 f' (np (ma_off T))) = zlen (tab_entries 8 f (ma_off T)) /\
+       znth i (tab_entries 8 f' (np (ma_off T))) = mp4_shift off delta (znth i (tab_entries 8 f (ma_off T)))).
+Proof.
+  intros Hwf Ha Hp Hc Hs.
+  destruct (c10_offsets_follow_data f ilst_data cb f' atoms path Hwf Ha Hp Hc Hs) as (off & old & Hr & _ & _ & _ & HH).
+  exists off, old. split; [exact Hr|]. cbv zeta in *. destruct HH as (H4 & H8 & _).
+  split; intros T i HT Hi; [rewrite (H4 T HT)|rewrite (H8 T HT)]; (split; [apply zlen_map|apply znth_map_in; exact Hi]).
+Qed.
